@@ -75,21 +75,34 @@ def to_csv(val):
     """
     Modifies odML values for serialization to strings and files.
 
+    A single value is stored as plain text. Any other number of values - and a
+    single value that is empty or itself reads like a bracketed list - is stored
+    as a comma separated list enclosed in square brackets; values containing a
+    comma, a double quote or a line break are quoted according to the csv "excel"
+    dialect, so that 'from_csv' returns exactly the values that were written.
+
     :param val: odML value.
     :return: modified value string.
     """
     # Make sure all individual values do not contain
     # leading or trailing whitespaces.
     unicode_values = list(map(str.strip, map(str, val)))
+    if not unicode_values:
+        return ""
+
+    if len(unicode_values) == 1:
+        single = unicode_values[0]
+        if single and not (single[0] == "[" and single[-1] == "]"):
+            return single
+
     stream = StringIO()
     writer = csv.writer(stream, dialect="excel")
     writer.writerow(unicode_values)
-    # Strip any csv.writer added carriage return line feeds
-    # and double quotes before saving.
-    csv_string = stream.getvalue().strip().strip('"')
-    if len(unicode_values) > 1:
-        csv_string = "[" + csv_string + "]"
-    return csv_string
+    csv_string = stream.getvalue()
+    # Remove the line terminator added by the csv.writer; the quoting stays.
+    if csv_string.endswith("\r\n"):
+        csv_string = csv_string[:-2]
+    return "[" + csv_string + "]"
 
 
 def from_csv(value_string):
@@ -99,6 +112,10 @@ def from_csv(value_string):
     :param value_string: string of odML values.
     :return: list of values.
     """
+    if not value_string:
+        return []
+    # Whitespace around the content of an XML element is not part of the values.
+    value_string = value_string.strip()
     if not value_string:
         return []
     if value_string[0] == "[" and value_string[-1] == "]":
